@@ -98,6 +98,11 @@ def ts_of(t, base):
         return NO_TS
     if not isinstance(t, datetime):
         return NO_TS
+    if t.tzinfo is not None:
+        # an aware timestamp is an instant: place it on the axis through UTC
+        from datetime import timezone
+
+        t = t.astimezone(timezone.utc)
     delta = t.replace(tzinfo=None) - base
     return int(delta.days * 86400 + delta.seconds)
 
